@@ -228,9 +228,9 @@ def inventory(root, with_times=False):
 
     def rec(pb):
         st = os.lstat(pb)
-        rel = os.path.relpath(pb, rootb).decode("latin-1") if pb != rootb else "."
+        rel = os.fsdecode(os.path.relpath(pb, rootb)) if pb != rootb else "."
         if stat.S_ISLNK(st.st_mode):
-            r = {"t": "l", "target": os.readlink(pb).decode("latin-1")}
+            r = {"t": "l", "target": os.fsdecode(os.readlink(pb))}
         elif stat.S_ISDIR(st.st_mode):
             r = {"t": "d"}
         elif stat.S_ISREG(st.st_mode):
@@ -251,7 +251,7 @@ def inventory(root, with_times=False):
 
 def read_through(root, rel):
     """Bytes read through a path (following symlinks), or None."""
-    p = os.path.join(os.fsencode(root), rel.encode("latin-1"))
+    p = os.path.join(os.fsencode(root), os.fsencode(rel))
     try:
         with open(p, "rb") as f:
             return f.read()
@@ -342,11 +342,21 @@ def read_shim_log(path):
             if not line:
                 continue
             try:
-                evs.append(json.loads(line))
+                e = json.loads(line)
             except Exception:
-                pass
+                continue
+            for k in ("p1", "p2"):
+                if isinstance(e.get(k), str):
+                    e[k] = os.fsdecode(e[k].encode("latin-1"))     # the shim writes one \u00XX per byte
+            evs.append(e)
     evs.sort(key=lambda e: e.get("seq", 0))
     return evs
+
+
+def printable(p):
+    """Injective printable ASCII form of a path given as fs-decoded str (bytes outside 0x21..0x7e and '<' become <xx>)."""
+    b = os.fsencode(p)
+    return "".join(chr(c) if 0x21 <= c <= 0x7e and c not in (0x3c, 0x22, 0x5c) else "<%02x>" % c for c in b)
 
 
 def pmap(fn, items, workers=None):
@@ -380,6 +390,9 @@ class Check:
         self.divergences = 0
         self.known = [k for k in load_known() if k.get("property") == pid and k.get("status", "open") == "open"]
         os.makedirs(os.path.join(VERIF, "replays"), exist_ok=True)
+        for old in os.listdir(os.path.join(VERIF, "replays")):
+            if old.startswith(pid + "-"):
+                os.remove(os.path.join(VERIF, "replays", old))
         os.makedirs(os.path.join(VERIF, "evidence"), exist_ok=True)
 
     def add_tlc(self, name, res):
@@ -444,6 +457,11 @@ def validate_traces(module, cfg, trace_path, max_problems=5, timeout=600, reset_
     TLC stops at the first problem, so the file is cut after the offending run and validation is repeated."""
     with open(trace_path) as f:
         lines = f.readlines()
+    reset_re = re.compile(r'"ev": ?"' + reset_ev + '"')
+
+    def is_reset(x):
+        return reset_re.search(x) is not None
+
     problems = []
     offset = 0
     stats = {"states": 0, "generated": 0, "runs": 0, "events": len(lines)}
@@ -478,10 +496,10 @@ def validate_traces(module, cfg, trace_path, max_problems=5, timeout=600, reset_
             absline = min(absline, len(lines))
             # locate run
             start = absline
-            while start > 1 and f'"ev":"{reset_ev}"' not in lines[start - 1]:
+            while start > 1 and not is_reset(lines[start - 1]):
                 start -= 1
             end = absline + 1
-            while end <= len(lines) and f'"ev":"{reset_ev}"' not in lines[end - 1]:
+            while end <= len(lines) and not is_reset(lines[end - 1]):
                 end += 1
             try:
                 ev = json.loads(lines[absline - 1])
@@ -498,5 +516,5 @@ def validate_traces(module, cfg, trace_path, max_problems=5, timeout=600, reset_
                 os.remove(t)
             except OSError:
                 pass
-    stats["runs"] = sum(1 for x in lines if f'"ev":"{reset_ev}"' in x)
+    stats["runs"] = sum(1 for x in lines if is_reset(x))
     return problems, stats
